@@ -10,7 +10,7 @@ SPEC_MODE = "spec"
 KEEP_PREFIX = 2                       # `clock`, `load`
 SIZES = {"quick": 4500, "thorough": 120000}
 BATCH = 1500
-EXTRA_MODULES = ("Sentinel.Lemmas.FlowReject", "Sentinel.Lemmas.FlowRejectConc")
+EXTRA_MODULES = ("Sentinel.Lemmas.FlowReject", "Sentinel.Lemmas.FlowRejectConc", "Sentinel.Lemmas.FlowRejectG")
 KEY = "assoc-standalone-own-traffic"
 RULE = ("per case: one flow.LoadRules of 1-5 Direct/Reject rules over resources 1..4 (thresholds incl. 0, fractional, subnormal, "
         "NaN, +Inf, negative=invalid; StatIntervalInMs so that default view, derived view, independent window (n buckets of 500, or "
@@ -400,7 +400,7 @@ META = {
                    "spurious block, blocked requests consume nothing; small-step theorem: with at most k callers between check and record the window sum "
                    "never exceeds T+(k-1)*maxBatch for any number of threads and any schedule. The model is tied to the code by running the same op files "
                    "through flow.LoadRules/api.Entry (virtual clock, goroutines parked at chain.between-check-and-stat) and the compiled Lean driver."),
-    "level_note": ("Scope of the proofs: reject-only rule lists and a first load (executed_eq_core ties the general driver definitions to that core); throttling rules in the chain and reloads are covered by the shared chain walk (chain_model_eq_ref), C10's doCheck model and the correspondence/spec runs, not by a refinement proof. Trusted: Lean kernel; axioms propext/Classical.choice/Quot.sound; Go harness, virtual util.Clock, yield hook. Modelled not verified: "
+    "level_note": ("Scope of the proofs: runG_eq_ref covers every op history of clock/load/entry (reject + throttling rules, sleeps, reloads) of the executed stepOp against the array-free reference, admit_iff_executed_full_partial and window_cap_after_reload_partial follow from it; the `par` small step is proved for reject-only states (sched_eq_ref, par_overshoot); executed_eq_core ties the general driver definitions to the reject-only core theorems. Trusted: Lean kernel; axioms propext/Classical.choice/Quot.sound; Go harness, virtual util.Clock, yield hook. Modelled not verified: "
                    "float64 threshold read as exact dyadic (exact while counts stay below 2^53), Direct+Reject and Direct+Throttling rules (throttling interval as exact rational ceiling; generator keeps power-of-two thresholds "
                    "where the float64 expression is exact), default statistic configuration (20x500 ms node array, 1000 ms default view), other slots "
                    "(system/isolation/hotspot/breaker) have no rules. Known finding assoc-standalone-own-traffic: faithful model + witness + partial."),
